@@ -7,6 +7,7 @@ open OdxVerif.Bits OdxVerif.OdxM
 mutual
 def Tree.toParam : Tree → Param
   | .int o _ => o.toParam
+  | .const o v => o.toConstParam v
   | .struct n bp kids => .mk n bp none (.value (.struct none (Trees.toParams kids)) none)
 def Trees.toParams : List Tree → List Param
   | [] => []
@@ -17,6 +18,7 @@ mutual
 /-- fuel the model needs for a parameter -/
 def Tree.need : Tree → Nat
   | .int _ _ => 2
+  | .const _ _ => 2
   | .struct _ _ kids => Trees.need kids + 4
 def Trees.need : List Tree → Nat
   | [] => 1
@@ -41,6 +43,7 @@ theorem encodeKeyValues_trees (ts : List Tree) (extra : Nat) (s : EncState) (st 
     rw [this]
     cases t with
     | int o v => simp only [Trees.toParams, Tree.toParam, Obj.toParam, encodeKeyValues]; exact ih
+    | const o v => simp only [Trees.toParams, Tree.toParam, Obj.toConstParam, encodeKeyValues]; exact ih
     | struct n bp kids => simp only [Trees.toParams, Tree.toParam, encodeKeyValues]; exact ih
 
 
@@ -48,6 +51,7 @@ mutual
 /-- sibling parameters have pairwise distinct short names, at every level -/
 def Tree.namesOk : Tree → Prop
   | .int _ _ => True
+  | .const _ _ => True
   | .struct _ _ kids => Trees.namesOk kids
 def Trees.namesOk : List Tree → Prop
   | [] => True
@@ -120,10 +124,13 @@ theorem Trees.need_ge (ts : List Tree) : ts.length + 1 ≤ Trees.need ts := by
   | nil => simp [Trees.need]
   | cons t ts ih => simp only [Trees.need, List.length_cons]; omega
 
-theorem Tree.toParam_value (t : Tree) : ∃ bp bitp dop, t.toParam = .mk t.name bp bitp (.value dop none) := by
+theorem Tree.toParam_kind (t : Tree) :
+    (∃ bp bitp dop, t.toParam = .mk t.name bp bitp (.value dop none)) ∨
+    (∃ bp bitp dct v, t.toParam = .mk t.name bp bitp (.codedConst dct v)) := by
   cases t with
-  | int o v => exact ⟨_, _, _, rfl⟩
-  | struct n bp kids => exact ⟨_, _, _, rfl⟩
+  | int o v => exact Or.inl ⟨_, _, _, rfl⟩
+  | const o v => exact Or.inr ⟨_, _, _, _, rfl⟩
+  | struct n bp kids => exact Or.inl ⟨_, _, _, rfl⟩
 
 theorem lookup_isSome_of_lookupV {name : String} {values : List (String × PVal)} {pv : PVal}
     (h : lookupV name values = some pv) : (lookup name values).isNone = false := by
@@ -156,6 +163,28 @@ theorem encodeParams_cons_value (eop : Bool) (values : List (String × PVal)) (f
     | error e => rfl
     | ok p => cases p; rfl
 
+/-- one step of the first encoding loop for a CODED-CONST parameter (never "required") -/
+theorem encodeParams_cons_const (eop : Bool) (values : List (String × PVal)) (f : Nat) (name : String)
+    (bp bitp : Option Nat) (dct : Dct) (v : IVal) (rest : List Param) (s : EncState) :
+    encodeParams eop values (f + 1) (.mk name bp bitp (.codedConst dct v) :: rest) s true =
+      (match encodeParam f (.mk name bp bitp (.codedConst dct v)) (lookupV name values)
+          (if rest.isEmpty then { s with isEndOfPdu := eop } else s) true with
+       | .ok (_, s1) => encodeParams eop values f rest s1 true
+       | .error e => .error e) := by
+  simp only [encodeParams, bind, Bool.false_and, Bool.false_eq_true, if_false]
+  by_cases hre : rest.isEmpty = true
+  · simp only [hre, if_true, run_bind, run_modifyS, pure, run_pure]
+    generalize encodeParam f _ _ _ true = r
+    cases r with
+    | error e => rfl
+    | ok p => cases p; rfl
+  · have hre' : rest.isEmpty = false := by simpa using hre
+    simp only [hre', Bool.false_eq_true, if_false, run_bind, pure, run_pure]
+    generalize encodeParam f _ _ _ true = r
+    cases r with
+    | error e => rfl
+    | ok p => cases p; rfl
+
 mutual
 /-- the model's `encodeParam` on a tier-2 parameter = the pure encoder, up to `is_end_of_pdu`/`cursor_bit` -/
 theorem Tree.encode_eq : (t : Tree) → t.okAll → t.namesOk → ∀ (fuel : Nat), t.need ≤ fuel → ∀ (s : EncState),
@@ -167,6 +196,13 @@ theorem Tree.encode_eq : (t : Tree) → t.okAll → t.namesOk → ∀ (fuel : Na
     refine ⟨encStep o v s, ?_, SameCore.refl _⟩
     simp only [Tree.toParam, Tree.pair, Pair.map, Pair.ofObj]
     exact encodeParam_obj o hok.1 v hok.2 f s
+  | .const o v, hok, _, fuel, hf, s => by
+    simp only [Tree.okAll] at hok
+    simp only [Tree.need] at hf
+    obtain ⟨f, rfl⟩ : ∃ f, fuel = f + 1 := ⟨fuel - 1, by omega⟩
+    refine ⟨encStep o v s, ?_, SameCore.refl _⟩
+    simp only [Tree.toParam, Tree.pair, Pair.map, Pair.ofObj]
+    exact encodeParam_const_obj o hok.1 v hok.2 _ (Or.inr rfl) f s
   | .struct n bp kids, hok, hn, fuel, hf, s => by
     simp only [Tree.okAll] at hok
     simp only [Tree.namesOk] at hn
@@ -224,15 +260,15 @@ theorem Trees.encode_eq : (ts : List Tree) → Trees.okAll ts → Trees.namesOk 
     have hgt := Tree.good t hok.1
     have hgts := Trees.good ts hok.2
     refine ⟨s2, ?_, ?_⟩
-    · obtain ⟨bp, bitp, dop, htp⟩ := Tree.toParam_value t
-      simp only [Trees.toParams]
-      rw [htp, encodeParams_cons_value eop values f t.name bp bitp dop none _ s _ hl, ← htp]
-      have hemp : (Trees.toParams ts).isEmpty = ts.isEmpty := by cases ts <;> rfl
-      rw [hemp]
+    · have hemp : (Trees.toParams ts).isEmpty = ts.isEmpty := by cases ts <;> rfl
       have hstep' : encodeParam f t.toParam (some t.pair.val) (if ts.isEmpty then { s with isEndOfPdu := eop } else s) true
           = .ok ((), s1) := hstep
-      rw [hstep']
-      exact hrest
+      simp only [Trees.toParams]
+      rcases Tree.toParam_kind t with ⟨bp, bitp, dop, htp⟩ | ⟨bp, bitp, dct, v, htp⟩
+      · rw [htp, encodeParams_cons_value eop values f t.name bp bitp dop none _ s _ hl, ← htp, hemp, hstep']
+        exact hrest
+      · rw [htp, encodeParams_cons_const eop values f t.name bp bitp dct v _ s, ← htp, hemp, hl, hstep']
+        exact hrest
     · -- the pure encoder of the list is the composition
       simp only [Trees.pair, Pair.map, Pair.seq]
       exact hc2.trans (hgts.core _ _ (hc1.trans (hgt.core _ _ hsm)))
@@ -242,6 +278,7 @@ end
 mutual
 theorem Tree.dec_cursorBit : (t : Tree) → ∀ (d : DecState), d.cursorBit = 0 → (t.pair.dec d).2.cursorBit = 0
   | .int o v, d, _ => rfl
+  | .const o v, d, _ => rfl
   | .struct n bp kids, d, h => by
     simp only [Tree.pair, Pair.map, Pair.atPos, Pair.inOrigin]
     exact Trees.dec_cursorBit kids _ h
@@ -262,6 +299,12 @@ theorem Tree.decode_eq : (t : Tree) → t.okAll → ∀ (fuel : Nat), t.need ≤
     obtain ⟨f, rfl⟩ : ∃ f, fuel = f + 2 := ⟨fuel - 2, by omega⟩
     simp only [Tree.toParam, Tree.pair, Pair.map, Pair.ofObj]
     exact decodeParam_obj o hok.1 f d hfit
+  | .const o v, hok, fuel, hf, d, _, hfit => by
+    simp only [Tree.okAll] at hok
+    simp only [Tree.need] at hf
+    obtain ⟨f, rfl⟩ : ∃ f, fuel = f + 1 := ⟨fuel - 1, by omega⟩
+    simp only [Tree.toParam, Tree.pair, Pair.map, Pair.ofObj]
+    exact decodeParam_const_obj o hok.1 v f d hfit
   | .struct n bp kids, hok, fuel, hf, d, hcb, hfit => by
     simp only [Tree.okAll] at hok
     simp only [Tree.need] at hf
